@@ -683,6 +683,15 @@ class TaskDispatcher(object):
                         current message.
                         """
                         message.acknowledge(multiple=False)
+                    else:
+                        """
+                        A duplicate of an orphaned response that is already
+                        being retained (e.g. the worker also answered a
+                        redelivered request). Keep the retained one and
+                        acknowledge the duplicate, which would otherwise
+                        never be acknowledged.
+                        """
+                        message.acknowledge(multiple=False)
                 else:
                     """
                     Defer logging and acknowledging any "orphaned" response messages
